@@ -48,15 +48,22 @@ func isTerminating(f []string) bool {
 	if len(f) >= 2 && f[0] == "rep" {
 		f = f[2:]
 	}
+	if len(f) >= 2 && f[0] == "begin" && f[1] != "ok" {
+		return true // the dial fails
+	}
 	if len(f) >= 2 && f[0] == "env" && (f[1] == "closing" || f[1] == "failwrites") {
 		return true
+	}
+	if len(f) >= 3 && f[0] == "env" && f[1] == "preface" {
+		switch f[2] {
+		case "eof", "short", "wrong":
+			return true
+		}
 	}
 	if len(f) >= 4 && f[0] == "env" && f[1] == "deliver" {
 		switch f[3] {
 		case "eof", "err", "bad":
 			return true
-		case "direct":
-			return len(f) >= 5 && f[4] == "0"
 		}
 	}
 	return false
@@ -154,11 +161,27 @@ func u32(s string) uint32 {
 // apply performs one op on the real session. Environment ops always answer "ok": whether the relay
 // takes the bytes is what the later observations are about.
 func (r *runner) apply(f []string) string {
-	if f[0] == "start" {
+	if f[0] == "start" || f[0] == "begin" {
 		if r.s != nil {
 			return "bad-op"
 		}
-		s, err := startSession()
+		var s *session
+		var err error
+		if f[0] == "start" {
+			s, err = startSession()
+		} else {
+			if len(f) < 2 || (f[1] != "ok" && f[1] != "refuse" && f[1] != "tlsfail") {
+				return "bad-op"
+			}
+			variant := ""
+			if len(f) >= 3 {
+				variant = f[2]
+			}
+			s, err = begin(f[1], variant)
+			if s != nil && f[1] != "ok" {
+				s.markTerm("dial-fails:" + strings.Join(f[1:], "-"))
+			}
+		}
 		r.s = s
 		if err != nil {
 			r.fail = err.Error()
@@ -198,11 +221,46 @@ func (r *runner) apply(f []string) string {
 		}
 		time.Sleep(2 * time.Millisecond) // let the readers get back into their select
 		return "ok"
+	case "settings":
+		if !s.running {
+			return "bad-op"
+		}
+		if err := s.settings(); err != nil {
+			r.fail = err.Error()
+			core.Count("start_failed")
+		}
+		return "ok"
 	case "env":
 		if len(f) < 2 {
 			return "bad-op"
 		}
 		switch f[1] {
+		case "preface":
+			if len(f) < 3 || s.prefaced {
+				return "bad-op"
+			}
+			k := 0
+			if len(f) >= 4 {
+				k, _ = strconv.Atoi(f[3])
+			}
+			switch f[2] {
+			case "good", "split":
+			case "eof", "short", "wrong":
+				if s.mode == "ok" && !s.isReturned() {
+					defer s.markTerm("preface:" + strings.Join(f[2:], "-"))
+				}
+			default:
+				return "bad-op"
+			}
+			if err := s.preface(f[2], k); err != nil {
+				if f[2] == "good" || f[2] == "split" {
+					if !s.sReset && !s.termed {
+						r.fail = err.Error()
+						core.Count("start_failed")
+					}
+				}
+			}
+			return "ok"
 		case "closing":
 			s.closeOnce.Do(func() { close(s.closing) })
 			s.markTerm("closing")
@@ -224,7 +282,11 @@ func (r *runner) apply(f []string) string {
 			return "bad-op"
 		case "failwrites":
 			if len(f) == 3 && f[2] == "s2c" {
-				s.proxyEnd.failWrites.Store(true)
+				blocked := s.proxyEnd.inWrite.Load() > 0
+				s.proxyEnd.fail()
+				if blocked && !s.termed { // a write toward the client was blocked: it fails now
+					s.markTerm("blocked-write-toward-client-fails")
+				}
 				return "ok"
 			}
 			if len(f) == 3 && f[2] == "c2s" { // realised by `reset`
@@ -262,10 +324,19 @@ func (r *runner) deliver(f []string) string {
 		return "bad-op"
 	}
 	work, c := f[1:i], f[i+1:]
+	if !s.running && !(dir == "s2c" && (work[0] == "err" || work[0] == "eof") && (c[0] == "reset" || c[0] == "close")) {
+		return "bad-op" // before the relays exist only the server can act (it goes away)
+	}
 	if isTerminating(append([]string{"env", "deliver", dir}, work...)) {
-		defer s.markTerm(dir + ":" + strings.Join(c, "-"))
-	} else if dir == "s2c" && s.proxyEnd.failWrites.Load() && len(work) >= 1 && (work[0] == "own" || work[0] == "direct") {
-		defer s.markTerm("write-toward-client-fails:" + strings.Join(c, "-")) // the relay's next write toward the client fails
+		if s.running || !s.termed {
+			defer s.markTerm(dir + ":" + strings.Join(c, "-"))
+		}
+	} else if s.proxyEnd.failWrites.Load() && len(work) >= 1 &&
+		((dir == "s2c" && (work[0] == "own" || work[0] == "direct" || work[0] == "settings" || (work[0] == "data" && work[1] != "0"))) ||
+			(dir == "c2s" && work[0] == "data")) {
+		// the relay's next write toward the client fails: a forwarded frame (s2c) or the window
+		// acknowledgement of a client DATA frame (c2s)
+		defer s.markTerm("write-toward-client-fails:" + dir + ":" + strings.Join(c, "-"))
 	}
 	var err error
 	switch c[0] {
@@ -288,6 +359,16 @@ func (r *runner) deliver(f []string) string {
 		err = s.write(dir, func(fr *http2.Framer) error { return fr.WriteData(u32(c[1]), false, make([]byte, n)) })
 	case "ping":
 		err = s.write(dir, func(fr *http2.Framer) error { return fr.WritePing(false, [8]byte{1, 2, 3}) })
+	case "pong":
+		err = s.write(dir, func(fr *http2.Framer) error { return fr.WritePing(true, [8]byte{1, 2, 3}) })
+	case "settings":
+		err = s.write(dir, func(fr *http2.Framer) error {
+			return fr.WriteSettings(http2.Setting{ID: http2.SettingMaxConcurrentStreams, Val: 100})
+		})
+	case "settings-ack":
+		err = s.write(dir, func(fr *http2.Framer) error { return fr.WriteSettingsAck() })
+	case "goaway":
+		err = s.write(dir, func(fr *http2.Framer) error { return fr.WriteGoAway(0, http2.ErrCodeNo, []byte("bye")) })
 	case "wupdate":
 		if len(c) != 3 {
 			return "bad-op"
@@ -324,7 +405,7 @@ func (r *runner) deliver(f []string) string {
 				}
 			}
 			s.cClosed = true
-			s.cliConn.Close()
+			s.cq.closeAfterPending()
 		} else {
 			s.sClosedW = true
 			if s.srvConn != nil {
@@ -336,11 +417,12 @@ func (r *runner) deliver(f []string) string {
 			return "bad-op"
 		}
 		s.sReset = true
-		if s.srvConn != nil {
-			if tc, ok := s.srvConn.NetConn().(*net.TCPConn); ok {
+		if sc := s.server(); sc != nil {
+			if tc, ok := sc.NetConn().(*net.TCPConn); ok {
 				tc.SetLinger(0)
 			}
-			s.srvConn.NetConn().Close()
+			sc.NetConn().Close()
+			time.Sleep(2 * time.Millisecond) // let the RST arrive
 		}
 	default:
 		return "bad-op"
@@ -359,7 +441,9 @@ func (s *session) obs() string {
 	}
 	_, _, ended := s.sstat.get()
 	sc := "open"
-	if ended || (s.sReset && ret == 1) {
+	if s.mode != "ok" {
+		sc = "none" // tls.Dial never returned a connection
+	} else if ended || (s.sReset && ret == 1) {
 		// after a reset by the server itself the proxy's close cannot be observed any more
 		sc = "closed"
 	}
@@ -425,6 +509,13 @@ wait:
 					}
 				}
 			}
+			if site == "none" {
+				for _, g := range gs {
+					if g.kind == "main" && g.site != "" {
+						site = g.site // stuck before the relays exist: dial | preface-read | preface-write
+					}
+				}
+			}
 			v.sig = "c10:not-returned:" + site
 			v.fail = fmt.Sprintf("Config.Proxy has not returned %v after the terminating event %q; session goroutines left: %s (reader blocked at: %s)",
 				returnBound, s.termWhy, kindsOf(gs), site)
@@ -433,7 +524,7 @@ wait:
 	}
 	// the caller of Proxy (Proxy.handleLoop) closes the client connection afterwards
 	s.proxyEnd.Close()
-	closedSeen := s.sReset || waitFor(scale(closeBound), func() bool { _, _, e := s.sstat.get(); return e })
+	closedSeen := s.mode != "ok" || s.sReset || waitFor(scale(closeBound), func() bool { _, _, e := s.sstat.get(); return e })
 	if closedSeen {
 		waitFor(scale(leakBound), func() bool { return len(s.mine()) == 0 })
 	}
@@ -454,10 +545,14 @@ wait:
 	return v
 }
 
-// provenDeadlock: a reader is blocked sending into the peer's output and only one writer goroutine exists.
+// provenDeadlock: a reader is blocked sending into the peer's output and only one writer goroutine
+// exists; or Proxy sits in the preface read of a client that the case keeps silent.
 func (s *session) provenDeadlock() bool {
 	writers, peerEmit := 0, false
 	for _, g := range s.mine() {
+		if g.kind == "main" && g.site == "preface-read" && !s.prefaced {
+			return true
+		}
 		if g.kind == "writer" {
 			writers++
 		}
